@@ -146,7 +146,12 @@ theorem exFS2_LW : LW (pathComps (clean b!"/w/dest")) ({ fs := exFS2 } : World) 
       · decide
       · cases h
       · cases h
-  exact ⟨⟨rfl, hns, hfresh, by decide, hnames, htree⟩, hchain⟩
+  have hdirone : DirOne exFS2 := by
+    intro p q i n hp hq _ _
+    rcases hcases p i hp with ⟨rfl, rfl⟩ | ⟨rfl, rfl⟩ | ⟨rfl, rfl⟩ | ⟨rfl, rfl⟩ <;>
+      rcases hcases q _ hq with ⟨rfl, h⟩ | ⟨rfl, h⟩ | ⟨rfl, h⟩ | ⟨rfl, h⟩ <;>
+      first | rfl | exact absurd h (by decide)
+  exact ⟨⟨rfl, hns, hfresh, by decide, hnames, htree, hdirone⟩, hchain⟩
 
 def exArchive : List Entry := [{ name := b!"new/x", typ := .reg, body := b!"hello", size := 5 }]
 
